@@ -127,15 +127,23 @@ def in_domain(conv, meta, v):
     if isinstance(b, T.Decimal):
         if type(v) is not D:
             return False
+        if not v.is_finite():
+            return False            # NaN / Infinity are not amounts: must be refused on write
         if meta["scale"] is None:
             return True
-        if not v.is_finite():
-            return False
         t = v.as_tuple()
         if t.exponent == -meta["scale"] and len(t.digits) > 28 and any(t.digits):
             return None      # more digits than the default context's precision: an environment limit, not judged
         return t.exponent == -meta["scale"]
     return None
+
+
+def renormalised(v, back):
+    """plain notation cannot carry a positive exponent: Decimal('1E+2') is written '100' and reads back as
+    Decimal('100') - numerically equal, different (coefficient, exponent)"""
+    return (isinstance(v, D) and isinstance(back, D) and v.is_finite() and back.is_finite()
+            and v.as_tuple().exponent > 0 and back.as_tuple().exponent == 0 and back == v
+            and back.is_signed() == v.is_signed())
 
 
 def has_entity(s):
@@ -358,6 +366,8 @@ def oracle_read(ctx, conv, meta, kind, ireq, s, r, warned, case, enums):
         tag = "canon_value_changes"
         if isinstance(v, str) and has_entity(v):
             tag = "string_not_escaped"
+        if v1r[0] == "ok" and renormalised(v, v1r[1]):
+            tag = "decimal_positive_exponent_renormalised"
         ctx.violate(tag, case, f"convert({s!r}) -> {v!r}; written as {s1!r}; read back as {v1r}")
         return
     s2r, _ = call(conv.unconvert, v1r[1])
@@ -386,6 +396,8 @@ def oracle_write(ctx, conv, meta, kind, v, r, warned, case):
             tag = f"not_inverse_{type(b).__name__}"
             if isinstance(v, str) and has_entity(v):
                 tag = "string_not_escaped"
+            if back[0] == "ok" and renormalised(v, back[1]):
+                tag = "decimal_positive_exponent_renormalised"
             ctx.violate(tag, case, f"unconvert({v!r}) -> {r[1]!r} which reads back as {back}")
     else:
         if r[0] == "ok":
@@ -425,6 +437,7 @@ def run_primitives(ctx, enums):
             add("py.dec " + S(s), "none" if r[0] == "err" else ["some", can_dec(r[1])], ("Decimal", s))
         d = tc.gen_decimal_value(rng)
         add("py.decstr " + text(can_dec(d)), S(str(d)), ("str", repr(d)))
+        add("py.decfmt " + text(can_dec(d)), S(format(d, "f")), ("format_f", repr(d)))
         qe = rng.choice((-1, -2, -2, -3, -4, -5, -8, 0, -12))
         r = run_impl(d.quantize, D((0, (1,), qe)))
         add(f"py.quantize {text(can_dec(d))} {qe}", ["ok", can_dec(r[1])] if r[0] == "ok" else ["err"], ("quantize", repr(d), qe))
@@ -467,16 +480,33 @@ def run_quantum(ctx):
 def run_fixed_witnesses(ctx):
     """witnesses of findings recorded as fixed: must pass on every run"""
     from ofxtools import Types as T
+
+    def case(name, args, op, v):
+        return {"conv": {"ctor": [name, args], "required": False}, "op": op, "value": repr(v)}
+
     for n in (1, 3, 9):
         for v in (-10 ** n, -10 ** 9 * 10 ** n):
-            case = {"conv": {"ctor": ["Integer", [n]], "required": False}, "op": "unconvert", "value": repr(v)}
             if run_impl(T.Integer(n).unconvert, v)[0] == "ok" or run_impl(T.Integer(n).convert, str(v))[0] == "ok":
-                ctx.violate("integer_negative_beyond_limit", case, f"Integer({n}) accepts {v} (length limit ignores negative values)")
+                ctx.violate("integer_negative_beyond_limit", case("Integer", [n], "unconvert", v),
+                            f"Integer({n}) accepts {v} (length limit ignores negative values)")
         ok = -(10 ** n - 1)
-        case = {"conv": {"ctor": ["Integer", [n]], "required": False}, "op": "unconvert", "value": repr(ok)}
         if run_impl(T.Integer(n).unconvert, ok) != ("ok", str(ok)) or run_impl(T.Integer(n).convert, str(ok)) != ("ok", ok):
-            ctx.violate("refuses_domain_value_Integer", case, f"Integer({n}) refuses {ok}")
+            ctx.violate("refuses_domain_value_Integer", case("Integer", [n], "unconvert", ok), f"Integer({n}) refuses {ok}")
         ctx.evaluations += 3
+    for b in (True, False):
+        if run_impl(T.Integer().unconvert, b)[0] == "ok":
+            ctx.violate("integer_bool_written", case("Integer", [], "unconvert", b), f"Integer().unconvert({b}) is written")
+        ctx.evaluations += 1
+    r = run_impl(T.Decimal(0).convert, "5")
+    if r[0] != "ok" or canon_val(r[1]) != canon_val(D("5")) or run_impl(T.Decimal(0).unconvert, D("5")) != ("ok", "5"):
+        ctx.violate("decimal_scale0_quantum", case("Decimal", [0], "convert", "5"), f"Decimal(0).convert('5') -> {r}")
+    for s in ("NaN", "sNaN7", "Infinity", "-inf"):
+        for sc in (None, 2):
+            if run_impl(T.Decimal(sc).convert, s)[0] == "ok":
+                tag = "decimal_text_nonfinite" if sc is None else "decimal_nan_scaled_unwritable"
+                ctx.violate(tag, case("Decimal", [sc], "convert", s), f"Decimal({sc}).convert({s!r}) is accepted")
+        ctx.evaluations += 2
+    ctx.evaluations += 1
 
 
 def replay(ctx, data):
